@@ -66,13 +66,15 @@ pub fn value_case(c: i128, s: u8, l: &mut Local) {
     if reps > 1 { l.distinct += 1; }
     // interchangeable as HashSet keys (small sample: set semantics over all representations)
     if s <= 2 && c.unsigned_abs() < 1000 {
-        let mut set: HashSet<Decimal> = HashSet::new();
+        // fixed-key hasher: the outcome must not depend on RandomState
+        type Fixed = std::hash::BuildHasherDefault<DefaultHasher>;
+        let mut set: HashSet<Decimal, Fixed> = HashSet::default();
         for t in 0..=(18 - s) { if let Some(a) = c.checked_mul(alpha::pow10(t as u32)) { set.insert(Decimal::new_raw(a, s + t)); } }
         l.evals += 1;
         if set.len() != 1 {
             l.violation("HashSet | equal values | not collapsed to one key".into(), || (format!("{} keys for value ({},{})", set.len(), c, s), json!({"c": c.to_string(), "s": s})));
         }
-        let mut map: HashMap<Decimal, u8> = HashMap::new();
+        let mut map: HashMap<Decimal, u8, Fixed> = HashMap::default();
         map.insert(Decimal::new_raw(c, s), 1);
         if let Some(a) = c.checked_mul(1000) { if map.get(&Decimal::new_raw(a, s + 3)) != Some(&1) {
             l.violation("HashMap | equal values | lookup with another representation fails".into(), || (format!("value ({},{})", c, s), json!({"c": c.to_string(), "s": s})));
